@@ -117,8 +117,8 @@ class EngineG(EngineBase):
             ast = ("expr", ("assign", "=", ("atom", ("id", "tmp")), e))
             texts.append(self._gen_text(ch, ast, paren_postfix, "pair"))
         # blank-sensitive texts go first: the short histories of parse_single nodes always contain them
-        hz = gen_c.blank_sensitive_cases() + gen_c.paren_ident_cases()
-        for _ in range(2):
+        hz = gen_c.blank_sensitive_cases() + gen_c.paren_ident_cases() + gen_c.postfix_additive_cases()
+        for _ in range(3):
             e = ch.choice(hz, "hazard")
             ast = ("expr", ("assign", "=", ("atom", ("id", "tmp")), e))
             j = gen_c.to_jsonable(ast)
